@@ -335,14 +335,6 @@ Qed.
 
 (** * the honest prover accepts exactly the true statements of the supported class *)
 
-Definition wf_stmt (s : stmt) : bool :=
-  match s with
-  | SReveal _ => true
-  | SRange _ lo hi => wf_attr lo && wf_attr hi
-  | SInSet _ set | SNotInSet _ set => forallb wf_attr set
-  | SValue _ w => wf_attr w
-  end.
-
 Lemma holds_range_Z v lo hi :
   ((encode lo <=? encode v)%N && (encode v <? encode hi)%N = true)
   <-> Z.of_N (encode lo) <= Z.of_N (encode v) < Z.of_N (encode hi).
@@ -390,11 +382,6 @@ Proof.
       destruct set; reflexivity.
   - destruct (encode w =? encode v)%N; reflexivity.
 Qed.
-
-Definition supported_al (gens : nat) (al : alist) (s : stmt) : bool :=
-  match lookup (stmt_tag s) al with None => true | Some v => supported gens v s end.
-
-Definition wf_alist (al : alist) : bool := forallb (fun p => wf_attr (snd p)) al.
 
 Lemma lookup_wf al t v : wf_alist al = true -> lookup t al = Some v -> wf_attr v = true.
 Proof.
